@@ -54,11 +54,13 @@ func genC04(t *rapid.T) c4Case {
 		}
 		c.Gens = append(c.Gens, g)
 	}
-	switch rapid.IntRange(0, 4).Draw(t, "real") {
+	switch rapid.IntRange(0, 5).Draw(t, "real") {
 	case 0:
 		c.Real = []string{"runtimedoc"}
 	case 1:
 		c.Real = []string{"defaulter"}
+	case 2:
+		c.Real = []string{"deepcopy"}
 	}
 	c.Globals = genTagSet(t, names, 0).Map()
 	for _, r := range c.Real {
